@@ -244,6 +244,13 @@ def _task_worker(task, hb_path, res_path):
     kind, mod_name, payload, tier, seed, open_patterns = task
     _quiet()
     signal.signal(signal.SIGALRM, signal.SIG_DFL)
+    # `kill -USR1 <worker pid>` dumps the python stack of a slow worker into
+    # $VERIF_STACKS (debugging aid, off by default)
+    if os.environ.get('VERIF_STACKS'):
+        import faulthandler
+        faulthandler.register(
+            signal.SIGUSR1, all_threads=True,
+            file=open(os.environ['VERIF_STACKS'], 'a'))
     result = None
     try:
         mod = importlib.import_module(mod_name)
